@@ -19,6 +19,9 @@ A command is a nested tuple:
 A program is (funcs, main): funcs[i] is the body of function f<i>; f<i> may only call f<j>, j>i.
 """
 
+PRELUDE3 = r'''exec 3>&1
+L() { local id=$1; shift; eval "local k=\${K$id:-0}"; eval "K$id=\$((k+1))"; echo "m$id" >&3; local n=$#; if ((k >= n)); then k=$((n-1)); fi; shift $k; return $1; }
+'''
 PRELUDE = r'''L() { local id=$1; shift; eval "local k=\${K$id:-0}"; eval "K$id=\$((k+1))"; echo "m$id"; local n=$#; if ((k >= n)); then k=$((n-1)); fi; shift $k; return $1; }
 '''
 
@@ -69,7 +72,7 @@ def r_cmd(c, ind):
     if k == "L":
         return "L %d %s" % (c[1], " ".join(map(str, c[2])))
     if k == "P":
-        return 'echo "?$?"'
+        return 'echo "?$?" >&3' if ind.get("fd3") else 'echo "?$?"'
     if k == "I":
         return "if %s; then %s; fi" % (r_list(c[1], ind), r_list(c[2], ind))
     if k == "J":
@@ -94,14 +97,13 @@ def r_cmd(c, ind):
         arms = []
         for m, body, t in c[1]:
             term = {"x": ";;", "f": ";&", "c": ";;&"}[t]
-            arms.append("%s) %s %s" % ("x" if m else "y", r_list(body, ind), term))
+            # inside $( ) an unparenthesised pattern confuses brush's tokenizer (recorded finding): use (pat)
+            arms.append("%s%s) %s %s" % ("(" if ind.get("in_cs") else "", "x" if m else "y", r_list(body, ind), term))
         return "case x in %s esac" % " ".join(arms)
     if k == "Gr":
         return "{ %s; }" % r_list(c[1], ind)
     if k == "Su":
         body = r_list(c[1], ind)
-        if body.endswith("esac") and not ind.get("raw_esac"):
-            body += ";"     # brush mis-parses `esac )` (recorded finding); keep coverage of the rest
         return "( %s )" % body
     if k == "K":
         return "f%d" % c[1]
@@ -116,9 +118,11 @@ def r_cmd(c, ind):
     if k == "O":
         return "set %s%s" % ("-" if c[2] else "+", c[1])
     if k == "Cs":
+        ind["in_cs"] = ind.get("in_cs", 0) + 1
         body = r_list(c[1], ind)
-        if body.endswith("esac") and not ind.get("raw_esac"):
-            body += ";"
+        ind["in_cs"] -= 1
+        if body.startswith("("):
+            body = " " + body      # `$((` would start an arithmetic expansion
         return "v=$(%s)" % body
     if k == "Ev":
         return "eval %s" % sq(r_list(c[1], ind))
@@ -129,10 +133,10 @@ def sq(s):
     return "'" + s.replace("'", "'\\''") + "'"
 
 
-def render(prog, prelude=True, raw_esac=False):
+def render(prog, prelude=True, raw_esac=False, fd3=False):
     funcs, main = prog
-    ind = {"raw_esac": raw_esac}
-    out = PRELUDE if prelude else ""
+    ind = {"raw_esac": raw_esac, "fd3": fd3}
+    out = (PRELUDE3 if fd3 else PRELUDE) if prelude else ""
     for i, body in enumerate(funcs):
         out += "f%d() { %s; }\n" % (i, r_list(body, ind))
     out += r_list(main, ind) + "\n"
@@ -274,6 +278,10 @@ class Gen:
             return ("Su", body)
         if k < 0.93 and ncalls:
             return self.call(ncalls)
+        if "cs" in self.feats and r.random() < 0.5:
+            return ("Cs", self.lst(depth - 1, 0, infunc, ncalls))
+        if "ev" in self.feats and r.random() < 0.5:
+            return ("Ev", self.lst(depth - 1, loops, infunc, ncalls))
         return self.simple(loops, infunc, ncalls)
 
     def cmd_of(self, kinds, depth, loops, infunc, ncalls):
